@@ -87,3 +87,28 @@ def is_name(node, name):
 
 def is_const(node, value=None):
     return isinstance(node, ast.Constant) and (value is None or node.value == value)
+
+
+def defining_statements(fn, names, provided=()):
+    """Backward slice over the top-level statements of `fn`: the statements that (transitively) define `names`, in source
+    order.  Names in `provided` are inputs: their definitions are not followed."""
+    needed = set(names)
+    picked = []
+    for st in reversed(fn.body):
+        if isinstance(st, (ast.FunctionDef, ast.AsyncFunctionDef, ast.ClassDef)):
+            continue
+        stores = {n.id for n in ast.walk(st) if isinstance(n, ast.Name) and isinstance(n.ctx, ast.Store)}
+        if stores & needed:
+            picked.append(st)
+            needed |= {n.id for n in ast.walk(st) if isinstance(n, ast.Name) and isinstance(n.ctx, ast.Load)} - set(provided)
+    picked.reverse()
+    return picked
+
+
+def value_at_exit(it, fn, expr, env, provided):
+    """Value of `expr` after interpreting the statements of `fn` that define the names it mentions, started from `env`
+    (which provides the names in `provided`)."""
+    names = {n.id for n in ast.walk(expr) if isinstance(n, ast.Name)} - set(provided)
+    e = dict(env)
+    it.block(defining_statements(fn, names, provided), e)
+    return ev.ev(expr, e)
